@@ -1,4 +1,5 @@
 """C17 — substitution of a term for a variable never captures variables."""
+import re
 from ..facts import AnalysisGap, callee, callee_generic, local_of, strip, walk
 from .. import collect, hq, sym
 
@@ -325,9 +326,12 @@ def rule_sites(ctx):
                 n_ = lets_.get(lid)
                 return n_.get("init") if n_ else None
             triples = []
+            structs_ = []     # results of a helper taken apart by field: [{field: (id, name)}]
             for n_ in walk(b["body"]):
                 if n_.get("p") == "Tuple" and len(n_.get("pats", [])) == 3 and all(q.get("p") == "Bind" for q in n_["pats"][:2]):
                     triples.append((n_["pats"][0]["id"], n_["pats"][1]["id"]))
+                if n_.get("p") == "Struct" and len([f_ for f_ in n_.get("fields", []) if f_["pat"].get("p") == "Bind"]) >= 2:
+                    structs_.append({f_["name"]: (f_["pat"]["id"], f_["pat"].get("name")) for f_ in n_["fields"] if f_["pat"].get("p") == "Bind"})
             if dp.endswith("Formula::substitute"):
                 if local_of(a) is not None and len(pnames) == 3 and local_of(a) == pnames[2]:
                     ctx.ok("SITES", key, ctx.site(b, c), "recursive call passes the caller's own (variable, term) pair", nontrivial=False)
@@ -368,6 +372,15 @@ def rule_sites(ctx):
                         if n_.get("p") == "Bind" and n_.get("id") == t_[0]:
                             keep_names.add(n_.get("name"))
                 ok = bool(hit) and ini is not None and any(kn and kn in hq.render(ini) for kn in keep_names)
+                if not ok and ini is not None:
+                    # the result is a struct: the dropped variable is the field bound to the substituted variable, the kept one the field the
+                    # replacement term is built from
+                    for st_ in structs_:
+                        dropf = [f_ for f_, (i_, _) in st_.items() if i_ == vid]
+                        keepf = [f_ for f_, (i_, nm_) in st_.items() if i_ != vid and nm_ and re.search(r"\b%s\b" % re.escape(nm_), hq.render(ini))]
+                        if len(dropf) == 1 and len(keepf) == 1:
+                            ok = True
+                            TE_SELECT["keep"], TE_SELECT["drop"] = keepf[0], dropf[0]
                 ctx.add("SITES", key, ok, ctx.site(b, c), "drop_var is replaced by the keep variable's term; transitive_equality only returns pairs with sort(keep) a subsort of sort(drop)")
             else:
                 ctx.bad("SITES", key, ctx.site(b, c), "unknown caller of Formula::substitute: sort compatibility of %s is not established" % r)
@@ -393,6 +406,8 @@ def rule_sites(ctx):
         x = leaves.strip_acc(x)
         if isinstance(x, tuple) and x[:2] == ("ctor", "Option::Some"):
             tup = dict(x[2]).get("0")
+            if isinstance(tup, tuple) and tup[:1] == ("ctor",) and isinstance(TE_SELECT.get("keep"), str) and {TE_SELECT["keep"], TE_SELECT["drop"]} <= set(dict(tup[2])):
+                tup = ("list", (dict(tup[2])[TE_SELECT["keep"]], dict(tup[2])[TE_SELECT["drop"]], None))
             if isinstance(tup, tuple) and tup[:1] == ("list",) and len(tup[1]) == 3:
                 keep, drop = leaves.norm(tup[1][0]), leaves.norm(tup[1][1])
                 guarded = any(t[0] == "cond" and t[2] is True and isinstance(t[1], tuple) and t[1][:1] == ("call",) and t[1][1].endswith("subsort")
@@ -402,6 +417,9 @@ def rule_sites(ctx):
                 res.append(False)
     ctx.add("SITES", "keep-is-subsort", bool(res) and all(res), ctx.site(te),
             "every result (keep, drop, ..) of transitive_equality is produced under subsort(keep, drop): %d result paths, %d guarded" % (len(res), sum(res)))
+
+
+TE_SELECT = {}      # how the caller reads (keep, drop) out of transitive_equality's result when it is a struct: field names
 
 
 RULES = [rule_formula, rule_terms, rule_sites]
